@@ -154,3 +154,17 @@ Proof.
   induction s as [|c s IH]; [simpl; lia|].
   destruct (preproc_step c s) as [E|[x E]]; rewrite E; simpl; lia.
 Qed.
+
+(* number of FSMMachine.handle calls for a whole text: one macro step per (pre-processed) character plus the END step *)
+Definition lex_handle_calls (mybatis : bool) (flags : nat) (s : str) : nat :=
+  total_calls (table mybatis flags) S_WAIT (map classify (preproc s) ++ [cls_end]).
+Lemma lex_handle_calls_bound mb f s : (lex_handle_calls mb f s <= 2 * List.length s + 1)%nat.
+Proof.
+  unfold lex_handle_calls.
+  assert (G : forall tbl cs st, (total_calls tbl st (cs ++ [cls_end]) <= 2 * List.length cs + 1)%nat).
+  { intros tbl. induction cs as [|k cs IH]; intros st.
+    - cbn [app total_calls]. unfold handle_calls. rewrite Nat.eqb_refl. rewrite !orb_true_r. simpl. lia.
+    - cbn [app total_calls List.length]. pose proof (handle_calls_le2 tbl st k). specialize (IH (fst (impl_step tbl st k))). lia. }
+  pose proof (G (table mb f) (map classify (preproc s)) S_WAIT) as H. rewrite map_length in H.
+  pose proof (preproc_length s). lia.
+Qed.
